@@ -436,6 +436,26 @@ func runDyn(o *Opts) *Summary {
 					}
 				}
 			}
+			// a validator that was removed keeps signing the blocks it still computes
+			// (it holds the events): its signatures must not be recorded for rounds it
+			// no longer belongs to.  A babbling node pulls the crafted event from it.
+			if k%9 == 7 {
+				for _, x := range left {
+					if !byz[x.num] || x.State() != "Suspended" || x.core.RemovedRound() <= 0 {
+						continue
+					}
+					if kd := vn.injectSigsKind(x, "recent-block"); kd != "" {
+						sigInj["removed-validator-"+kd]++
+						for _, b := range active {
+							if b != x && b.State() == "Babbling" {
+								vn.Pull(b, x, false)
+								break
+							}
+						}
+					}
+					break
+				}
+			}
 			// heartbeat duties: a removed node, or one with too many undetermined
 			// events, suspends itself
 			for _, n := range active {
@@ -535,7 +555,9 @@ func runDyn(o *Opts) *Summary {
 // an event, signed with its own key on top of its own head, that carries
 // adversarial block signatures.  The event goes through the node's own core so
 // that the node never forks.
-func (vn *VNet) injectSigs(x *NNode) string {
+func (vn *VNet) injectSigs(x *NNode) string { return vn.injectSigsKind(x, "") }
+
+func (vn *VNet) injectSigsKind(x *NNode, force string) string {
 	w := vn.w
 	last := x.store.LastBlockIndex()
 	if last < 0 || x.core.Head() == "" {
@@ -543,6 +565,9 @@ func (vn *VNet) injectSigs(x *NNode) string {
 	}
 	kinds := []string{"other-body", "old-block", "duplicate", "future-index", "negative-index", "recent-block"}
 	kind := kinds[w.rng.Intn(len(kinds))]
+	if force != "" {
+		kind = force
+	}
 	var sigs []hg.BlockSignature
 	pick := func(idx int) *hg.Block {
 		b, err := x.store.GetBlock(idx)
